@@ -345,3 +345,57 @@ Theorem C03_example_unsized_width_growth :
   end.
 Proof. exact tx_widths. Qed.
 Print Assumptions C03_example_unsized_width_growth.
+
+(* ---------------------------------------------------------------- round 6: the `comments` option in all its forms *)
+From PV Require Import C03.SkelLang C03.SkelSem C03.Skel C03.CommentsModel C03.Comments.
+From PV Require Generated.YannyOps.
+(* write(comments=<list / tuple>) over the header text of C03.CommentsModel IS Model.do_write *)
+Theorem C03_write_comments_list_is_write : forall fs o nf l, do_write_c fs o nf (CmtList l) = do_write fs o nf l.
+Proof. exact write_c_list. Qed.
+Print Assumptions C03_write_comments_list_is_write.
+
+(* EXECUTING the source's write() skeleton with ONE string as comments (the isinstance / startswith / endswith branch of
+   the generated Generated/YannyOps.write_skel) is the model: the string verbatim, "# " in front unless it starts with
+   '#', one newline at the end unless it has one *)
+Theorem C03_source_write_str_is_model : forall fs o nf s, nf <> Some [] ->
+  run_write_c YannyOps.write_skel fs o nf (CmtStr s) = do_write_c fs o nf (CmtStr s).
+Proof. exact source_write_str_is_model. Qed.
+Print Assumptions C03_source_write_str_is_model.
+
+(* a one-line string without a '#' of its own, HOWEVER LONG, is written exactly like the one-element list *)
+Theorem C03_write_str_one_line_is_list : forall fs o nf s,
+  starts_withb [HASH] s = false -> ends_with [NL] (HASH :: SP :: s) = false ->
+  do_write_c fs o nf (CmtStr s) = do_write fs o nf [s].
+Proof. exact write_str_one_line. Qed.
+Print Assumptions C03_write_str_one_line_is_list.
+
+(* ... so the write keeps invariant and content: the comment text never becomes a pair or a row *)
+Theorem C03_write_str_preserves : forall fs o d p s, SInv fs o d -> p <> [] -> fs_get fs p = None -> comment_ok s = true ->
+  starts_withb [HASH] s = false -> ends_with [NL] (HASH :: SP :: s) = false ->
+  exists fs' o', do_write_c fs o (Some p) (CmtStr s) = (fs', o', Ok) /\ SInv fs' o' d /\ o_state o' = o_state o /\ o_file o' = p /\
+                 fs_get fs' (o_file o) = fs_get fs (o_file o).
+Proof. exact write_str_preserves. Qed.
+Print Assumptions C03_write_str_preserves.
+
+(* a write onto an existing name is refused and changes nothing, whatever form the comments have *)
+Theorem C03_write_any_comments_refused : forall fs o p c old, p <> [] -> fs_get fs p = Some old ->
+  do_write_c fs o (Some p) c = (fs, o, Refused).
+Proof. exact write_c_existing_refused. Qed.
+Print Assumptions C03_write_any_comments_refused.
+
+(* non-vacuity: the text of each form; the default header consists of comment lines only *)
+Example C03_example_comment_forms :
+  comment_text (CmtStr (bs "abc"%string)) = bs "# abc
+"%string /\ comment_text (CmtStr (bs "#abc"%string)) = bs "#abc
+"%string /\ comment_text (CmtStr (bs "a
+# b
+"%string)) = bs "# a
+# b
+"%string /\ comment_text (CmtStr []) = bs "# 
+"%string /\ comment_text (CmtList [bs "a"%string; bs "b"%string]) = bs "# a
+# b
+"%string.
+Proof. exact str_forms. Qed.
+Example C03_example_default_header_is_comments :
+  header_text_ok (comment_text (CmtNone (bs "f1.par"%string) (bs "2026-10-01 00:00:07 UTC"%string))) = true.
+Proof. exact none_header_is_comments. Qed.
